@@ -1,4 +1,5 @@
 import Model.Queue
+import Model.QueueSpec
 /-!
 Shared lemmas about the background-queue model: how each event changes the "conservation core"
 (ring, entry being consumed, delivered / displaced history, push order, overflow counter).
